@@ -92,7 +92,7 @@ def lim_vars():
     return {n: (z3.Bool('lim_%s_some' % n), None) for n in ('depth', 'nodes', 'movetime', 'wtime', 'btime', 'winc', 'binc', 'timer')}
 
 
-def lemma_limits(run):
+def lemma_limits(run, on_sat=None):
     """LIM: specification of limits_exceeded"""
     env = SS.StepEnv(run, 1, 'root', ply_concrete=None, limits=sym_limits())
     ex = env.ex
@@ -115,7 +115,10 @@ def lemma_limits(run):
                    note='limits_exceeded is true only if ply == 255, the node budget is reached, movetime is reached, or the time-management timer is reached with a clock set')
     if q.verdict == 'sat':
         facts = {str(d): str(q.model[d]) for d in q.model.decls() if str(d).startswith(('lim', 'ply', 'nodes0', 'elapsed'))}
-        real_check(run, 'limits_exceeded fires without a node/time reason (%s)' % facts, 'S5')
+        if on_sat is not None:
+            on_sat(facts)
+        else:
+            real_check(run, 'limits_exceeded fires without a node/time reason (%s)' % facts, 'S5')
     q = run.decide('LIM/fires-when-due', ex.pre + [zb(st2.guard), z3.Not(zb(res)),
                                                    z3.Or(z3.And(L('nodes'), z3.UGE(nodes, V('nodes', 64))),
                                                          *[z3.And(L('movetime'), z3.UGE(t, V('movetime', 128))) for t in times[-1:]])], kind='smt',
